@@ -86,7 +86,9 @@ def run(tier, seed):
         st, detail = walk_check(g)
         nwalk[st] += 1
         if st == "diff":
-            viol.append({"succ": [list(s) for s in g], "decisions": detail, "walks": [40, 400, 1]})
+            first_bad = dict((tuple(s), k) for s, k in uncertified).get(tuple(g))
+            viol.append({"succ": [list(s) for s in g], "decisions": detail, "walks": [40, 400, 1],
+                         "first_uncertified_step": first_bad})
     stats["sizes"] = sorted({len(g) for g in gs})
     stats["walk_comparisons"] = nwalk
     stats["walks_per_graph"] = 40
